@@ -201,11 +201,14 @@ class World:
         cyc = False
         try:
             if g == "computational":
-                digits = [r.randint(0, 1) for _ in range(L)]
+                pm = r.random() < 0.4       # strings over 0 1 + - (each + / - carries 1/sqrt2)
+                digits = [r.randint(0, 3 if pm else 1) for _ in range(L)]
                 rec["digits"] = digits
+                chars = ["01+-"[c] for c in digits]
                 how = r.choice(["str", "list"])
                 cyc = L >= 3 and r.random() < 0.2
-                obj = qtn.MPS_computational_state("".join(map(str, digits)) if how == "str" else digits, dtype=self.dtype, cyclic=cyc)
+                obj = qtn.MPS_computational_state("".join(chars) if how == "str" else (chars if pm else digits), dtype=self.dtype, cyclic=cyc)
+                scale = 2.0 ** (sum(c >= 2 for c in digits) / 2)
             elif g == "product":
                 vs = [U.gvec(self.nprng, d, self.cplx) for d in dims]
                 rec["vs"] = [snap_garray(v) for v in vs]
@@ -733,11 +736,22 @@ class World:
         rec = {"ev": "compress", "src": src, "out": name, "method": method, "cap": int(cap or 0), "rev": bool(rev),
                "cutoff0": cutoff == 0.0, "cutoff": repr(cutoff), "kind": kind, "ranks": ranks, "multi": multi, "exc": "", "ongrid": False, "val": [],
                "bonds": [], "qbonds": [], "maxbond": 0, "liso": [], "riso": [], "same": 0, "err2q": 0, "disc2q": 0,
-               "sweeps": ["R", "L"], "iters": 0, "form": "", "site": 0}
+               "sweeps": ["R", "L"], "iters": 0, "form": "", "site": 0, "capped": list(range(1, L))}
         try:
             with warnings.catch_warnings():
                 warnings.simplefilter("ignore")
-                if method == "mps.compress":
+                if method == "mps.compress_site":
+                    i = int(opts["site"])
+                    rec["site"] = i
+                    rec["capped"] = [k for k in (i, i + 1) if 1 <= k <= L - 1]      # bonds (i-1,i) and (i,i+1), 1-based positions
+                    if not multi:
+                        rec["ranks"] = [ranks[k - 1] for k in rec["capped"]]
+                    y = x.copy()
+                    kw = {"cutoff": cutoff}
+                    if cap:
+                        kw["max_bond"] = cap
+                    y.compress_site(i, **kw)
+                elif method == "mps.compress":
                     form = opts["form"]
                     rec["form"] = form if isinstance(form, str) else "int"
                     rec["site"] = 0 if isinstance(form, str) else int(form)
@@ -871,6 +885,11 @@ def compress_campaign(seed, tid, kind, dtype, ncombos, methods, thorough=False):
             if cap is not None and cap < 1:
                 continue
             combos.append(("mps.compress", cap, False, {"form": form}))
+    for i in range(L):
+        for cap in (rk - 1, rk, None):
+            if cap is not None and cap < 1:
+                continue
+            combos.append(("mps.compress_site", cap, False, {"site": i}))
     for it in (1, 2, 3):
         for sq in ("RL", "LR", "R", "L"):
             for rev in (False, True):
@@ -886,7 +905,7 @@ def compress_campaign(seed, tid, kind, dtype, ncombos, methods, thorough=False):
         combos = (first + rest)[:ncombos]
     for meth, cap, rev, opts in combos:
         cutoff = 0.0
-        if meth in ("direct", "mps.compress") and r.random() < 0.3:
+        if meth in ("direct", "mps.compress", "mps.compress_site") and r.random() < 0.3:
             cutoff = r.choice([1e-12, 1e-3, 0.05, 0.3])
         w.compress(src, meth, cap, rev, cutoff=cutoff, **opts)
     return w
